@@ -15,13 +15,19 @@ def run(ctx):
 
     def stages(ctx, mult, suffix, off):
         ctx.stage("c20" + suffix, "lib/controller/federation", "federation", ["C20/zz_verif_c20_test.go"], "TestVerifC20$",
-                  n * mult, HDR.format(imports="model.C20_model model.C20_run"), seed_offset=off, shard=75, pam=True, replace=_replace(),
+                  n * mult, HDR.format(imports="model.C20_model model.C20_entry model.C20_run"), seed_offset=off, shard=75, pam=True, replace=_replace(),
                   env={"VERIF_STAGE": "c20" + suffix})
     return standard(ctx, "C20", ["model/C20_run.vo"], stages, known_bits={4: "F9"},
-                    rule="random list requests through Conn.{Collection,Container,ContainerRequest,Group,Specimen,User}List with "
-                         "recording stub backends (1-4 clusters, page size 1..n, shuffled pages, injected error/empty/no-progress/"
-                         "repeat/foreign answers, unknown prefixes, malformed uuids, duplicates, 1-3 uuid filters, unsplittable "
-                         "options); distinct by hash of the case term; non-trivial = at least 2 backend calls or an error result",
+                    rule="random list requests through the entry points Conn.{Collection,Container,ContainerRequest,Group,Specimen,User}List "
+                         "under every kind of Login.LoginCluster setting (unset / the cluster itself / a remote / an unknown cluster / "
+                         "a uuid / not an id), with recording stub backends (1-4 clusters, page size 1..n, shuffled pages, injected "
+                         "error/empty/no-progress/repeat/foreign answers, failing UserBatchUpdate, unknown prefixes, malformed uuids, "
+                         "duplicates, 1-3 uuid filters, unsplittable options); every call runs under a 20 s watchdog and a call that "
+                         "does not return (or panics) is a judged observation; distinct by hash of the case term; non-trivial = at "
+                         "least 2 backend calls, an error result, or a call that did not return",
                     assumptions=["stub backends ignore context cancellation, so each cluster's request log is a function of its own answers",
                                  "with several failing clusters the returned error is the first to arrive: any failing cluster's error class is accepted",
-                                 "item order is compared exactly only because the stubs give every item instance a distinct modified_at"])
+                                 "item order is compared exactly only because the stubs give every item instance a distinct modified_at",
+                                 "a Conn.<Type>List call against in-process stubs (microseconds of work) that has not returned after 20 s "
+                                 "(VERIF_C20_WATCHDOG_S) never returns; generation stops after two such cases",
+                                 "a stub backend refuses (error 508, unrecorded) every list call after its 60th of one request"])
